@@ -154,6 +154,65 @@ func main() {
 						} else {
 							emit("incr", x.Pos(), x.End(), text(x.X)+" -= 1")
 						}
+					case *ast.SwitchStmt:
+						// switch tag { case A, B: X; default: Y } -> if tag == A || tag == B { X } else { Y }   (tag without calls, no
+						// fallthrough, no unlabelled break inside)
+						if x.Init == nil && x.Tag != nil && !hasCall(x.Tag) {
+							ok := true
+							var clauses []*ast.CaseClause
+							var def *ast.CaseClause
+							for _, st := range x.Body.List {
+								cc := st.(*ast.CaseClause)
+								if cc.List == nil {
+									def = cc
+								} else {
+									clauses = append(clauses, cc)
+								}
+								ast.Inspect(cc, func(m ast.Node) bool {
+									switch b := m.(type) {
+									case *ast.BranchStmt:
+										if b.Tok == token.FALLTHROUGH || (b.Tok == token.BREAK && b.Label == nil) {
+											ok = false
+										}
+									case *ast.ForStmt, *ast.RangeStmt, *ast.SwitchStmt, *ast.SelectStmt, *ast.TypeSwitchStmt:
+										if m != ast.Node(cc) {
+											return false // a break inside a nested loop/switch binds there
+										}
+									}
+									return true
+								})
+								for _, e := range cc.List {
+									if hasCall(e) {
+										ok = false
+									}
+								}
+							}
+							if ok && len(clauses) > 0 {
+								var sb strings.Builder
+								for i, cc := range clauses {
+									if i > 0 {
+										sb.WriteString(" else ")
+									}
+									var conds []string
+									for _, e := range cc.List {
+										conds = append(conds, text(x.Tag)+" == "+text(e))
+									}
+									sb.WriteString("if " + strings.Join(conds, " || ") + " {\n")
+									for _, st := range cc.Body {
+										sb.WriteString(text(st) + "\n")
+									}
+									sb.WriteString("}")
+								}
+								if def != nil {
+									sb.WriteString(" else {\n")
+									for _, st := range def.Body {
+										sb.WriteString(text(st) + "\n")
+									}
+									sb.WriteString("}")
+								}
+								emit("switch-if", x.Pos(), x.End(), sb.String())
+							}
+						}
 					case *ast.ReturnStmt:
 						// return f(x) -> r := f(x); return r   (functions with exactly one result)
 						if len(x.Results) == 1 && fd.Type.Results != nil && len(fd.Type.Results.List) == 1 && len(fd.Type.Results.List[0].Names) <= 1 {
